@@ -66,4 +66,4 @@ def counter_phase(ctx, info, coverage):
 
 def run(ctx, replay=None):
     return pc.run_property(ctx, "C11", pc.mon_c11, GEN, N_QUICK, N_THOROUGH, replay=replay, rule=RULE,
-                           assumptions=[pc.PFCP_NOTE], finding_sig=pc.sig_c11, directed=lambda rnd: pc.directed_c11(rnd) + pc.directed_c11b(rnd), extra_phase=counter_phase)
+                           assumptions=[pc.PFCP_NOTE], finding_sig=pc.sig_c11, directed=lambda rnd: pc.directed_c11(rnd) + pc.directed_c11b(rnd) + pc.directed_c11c(rnd), extra_phase=counter_phase)
